@@ -44,13 +44,16 @@ std::string swarm_to_line(const Swarm &s) {
     std::ostringstream o;
     o << "swarm " << s.lane << ' ' << s.nops << ' ' << s.cache_mode << ' ' << s.sieve_mode << ' ' << s.perturb_pm << ' ' << s.file_compression << ' '
       << s.dtype_mask << ' ' << s.big << ' ' << s.name_pool << ' ' << s.t0 << ' ' << s.entropy;
+    if (s.mdc_mode) o << ' ' << s.mdc_mode;
     return o.str();
 }
 bool swarm_from_line(const std::string &line, Swarm &s) {
     std::istringstream i(line);
     std::string w;
     if (!(i >> w) || w != "swarm") return false;
-    return (bool) (i >> s.lane >> s.nops >> s.cache_mode >> s.sieve_mode >> s.perturb_pm >> s.file_compression >> s.dtype_mask >> s.big >> s.name_pool >> s.t0 >> s.entropy);
+    if (!(i >> s.lane >> s.nops >> s.cache_mode >> s.sieve_mode >> s.perturb_pm >> s.file_compression >> s.dtype_mask >> s.big >> s.name_pool >> s.t0 >> s.entropy)) return false;
+    if (!(i >> s.mdc_mode)) s.mdc_mode = 0;
+    return true;
 }
 std::string plan_to_text(const Plan &p) {
     std::string t = swarm_to_line(p.swarm) + "\n";
@@ -115,15 +118,15 @@ static std::vector<int> lane_weights(const std::string &lane, Rng &r) {
         w[OP_flush] = 3; w[OP_kill] = 3; w[OP_dim_append] = 3;
     } else if (lane == "tree" || lane == "durable") {
         w_set(w, links, 5); w_set(w, attrs, 4); w_set(w, props, 4); w_set(w, deletes, 2); w_set(w, arrdata, 2); w_set(w, dimops, 3); w_set(w, frameops, 2);
-        w[OP_arr_write] = 5; w[OP_reopen] = 12; w[OP_flush] = 4; w[OP_kill] = 4; w[OP_clock] = 4; w[OP_mk_graph] = 3; w[OP_mk_fitted] = 1;
+        w[OP_arr_write] = 5; w[OP_reopen] = 12; w[OP_flush] = 4; w[OP_kill] = 4; w[OP_clock] = 4; w[OP_mk_graph] = 3; w[OP_mk_fitted] = 1; w[OP_del_misdirected] = 1; w[OP_replace_member] = 2;
         if (lane == "durable") { w[OP_flush] = 14; w[OP_kill] = 14; w[OP_flush_fault] = 6; w[OP_use_stale] = 14; w[OP_keep] = 4; w[OP_drop] = 1; w[OP_reopen] = 10;
                                  w[OP_arr_read] = 6; w[OP_frame_read_row] = 4; w[OP_dim_read] = 3; }
     } else if (lane == "names" || lane == "idhist") {
-        w[OP_mk_graph] = 4; w[OP_mk_fitted] = 2; if (lane == "idhist") { w[OP_force_id] = 3; w[OP_clock] = 6; }
+        w[OP_mk_graph] = 4; w[OP_mk_fitted] = 2; w[OP_replace_member] = 10; if (lane == "idhist") { w[OP_force_id] = 3; w[OP_clock] = 6; }
         w_set(w, create_core, 14); w_set(w, deletes, 7); w[OP_prop_create] = 12; w[OP_feat_create] = 8; w[OP_tag_addref] = 10; w[OP_tag_rmref] = 5;
         w[OP_group_add] = 10; w[OP_group_rm] = 5; w[OP_add_source] = 10; w[OP_rm_source] = 5; w[OP_reopen] = 10; w[OP_set_sources] = 4; w[OP_tag_setrefs] = 6; w[OP_group_set] = 6;
     } else if (lane == "delete") {
-        w[OP_mk_graph] = 8; w[OP_mk_fitted] = 7;
+        w[OP_mk_graph] = 8; w[OP_mk_fitted] = 7; w[OP_del_misdirected] = 12; w[OP_replace_member] = 4;
         w_set(w, create_core, 10); w_set(w, links, 10); w_set(w, deletes, 9); w[OP_prop_create] = 5; w[OP_dim_append] = 8; w[OP_reopen] = 8; w[OP_use_stale] = 5; w[OP_abuse_tag] = 2;
     } else if (lane == "reject") {
         w_set(w, create_core, 9); w_set(w, links, 6); w_set(w, attrs, 5); w_set(w, props, 6); w_set(w, arrdata, 5); w_set(w, dimops, 7); w_set(w, frameops, 4); w_set(w, deletes, 2);
@@ -150,7 +153,7 @@ static std::vector<int> lane_weights(const std::string &lane, Rng &r) {
     } else if (lane == "abuse") {
         w_set(w, abuse, 14); w_set(w, links, 4); w_set(w, deletes, 5); w_set(w, arrdata, 4); w_set(w, dimops, 6); w_set(w, frameops, 5); w_set(w, props, 3); w_set(w, attrs, 2);
         w[OP_use_stale] = 12; w[OP_keep] = 5; w[OP_drop] = 2; w[OP_reopen] = 6; w[OP_tag_pos] = 6; w[OP_tag_extent] = 6; w[OP_tag_units] = 4;
-        w[OP_mk_graph] = 4; w[OP_abuse_tagging] = 16;
+        w[OP_mk_graph] = 4; w[OP_abuse_tagging] = 16; w[OP_del_misdirected] = 3;
     }
     // swarm: switch a random third of the non-essential kinds off, boost a few
     for (int k = 0; k < OP_COUNT; k++) {
@@ -179,6 +182,7 @@ Plan generate_plan(const std::string &lane, uint64_t seed, int tier) {
     s.name_pool = r.range(2, 16);
     s.t0 = 1500000000 + (int64_t) r.below(200000000);
     s.entropy = r.next();
+    { unsigned m = (unsigned) ((s.entropy >> 40) % 4); s.mdc_mode = m < 2 ? 0 : (int) m - 1; }   // half of the runs keep libhdf5's default metadata cache
     s.weights = lane_weights(lane, r);
     const std::vector<int> &w = s.weights;
 
